@@ -137,6 +137,11 @@ def run(tier):
     res = common.run_harness("rates", cases, tag="c12")
     for c in cases:
         r = res.get(c["id"], {})
+        if "panic" in r:
+            V.count()
+            V.violation("look-up panicked: %s [%s]" % (json.dumps(r["panic"])[:300], c["id"]),
+                        {"kind": "lookup", "prop": PROP, "case": {"id": "r", "cache": "none", "runs": c["runs"][:1]}}, {"what": "rate look-up panicked"})
+            continue
         if "runs" not in r:
             V.unjudged += 1
             continue
